@@ -974,7 +974,62 @@ fn degenerate_key_probe(ctx: &mut Ctx) {
     ctx.rep.case("degenerate key new(0,3)", None);
 }
 
+/// conversions between the two kinds of key and the batch forms of `commit`: the streaming key turned back into
+/// an in-memory key commits like the original (to every polynomial that fits), `batch_commit` is `commit` mapped,
+/// for both provers.
+fn key_conversions(ctx: &mut Ctx) {
+    let n = ctx.n(8, 60);
+    for i in 0..n {
+        let id = format!("C14/keys/{}", i);
+        if !ctx.selected(&id) {
+            continue;
+        }
+        let mut rng = rng_for(ctx.seed, "C14/keys", i as u64);
+        let max_degree = range(&mut rng, 1, 40);
+        let mep = range(&mut rng, 1, 5);
+        let key = match make_key(ctx, &id, &mut rng, max_degree, mep) {
+            Some(k) => k,
+            None => continue,
+        };
+        let sk = CommitterKeyStream::from(&key.ck);
+        let fail = |ctx: &mut Ctx, what: &str, detail: String| {
+            ctx.rep.expect_fail(&id, &format!("streaming_kzg/{}", what), &detail,
+                format!("# CommitterKey::new({}, {}, rng of case {})\n# {}\n# rerun: .build/cargo/debug/pcv-harness C14 --seed {} --only {}\n", max_degree, mep, id, detail, ctx.seed, id));
+        };
+        // as_committer_key(k) keeps the k lowest powers: it commits like the original key to every polynomial of k coefficients
+        for k in [1usize, (max_degree + 1) / 2 + 1, max_degree + 1] {
+            let k = k.min(max_degree + 1);
+            match guarded(|| sk.as_committer_key(k)) {
+                Ok(ck2) => {
+                    let (cs, _) = gen_coeffs(&mut rng, k);
+                    let a = guarded(|| key.ck.commit(&cs));
+                    let b = guarded(|| ck2.commit(&cs));
+                    match (a, b) {
+                        (Ok(a), Ok(b)) if a == b => {}
+                        (a, b) => fail(ctx, "as-committer-key-differs", format!("as_committer_key({}) commits differently to a polynomial of {} coefficients (or one of the two aborted: {} / {})", k, cs.len(), a.is_err(), b.is_err())),
+                    }
+                }
+                Err(a) => fail(ctx, "as-committer-key-aborts", format!("as_committer_key({}) aborted on a key of {} powers: {}", k, max_degree + 1, a)),
+            }
+        }
+        // batch forms
+        let polys: Vec<Vec<Fr>> = (0..range(&mut rng, 1, 4)).map(|_| { let l = range(&mut rng, 1, max_degree + 1); gen_coeffs(&mut rng, l).0 }).collect();
+        let single: Vec<_> = polys.iter().map(|p| key.ck.commit(p)).collect();
+        match guarded(|| key.ck.batch_commit(&polys)) {
+            Ok(b) if b == single => {}
+            other => fail(ctx, "time-batch-commit-differs", format!("time batch_commit differs from commit mapped: {:?}", other.map(|v| v.len()))),
+        }
+        let revs: Vec<Vec<Fr>> = polys.iter().map(|p| rev(p)).collect();
+        let space_single: Vec<_> = revs.iter().map(|p| sk.commit(&&p[..])).collect();
+        if space_single != single {
+            fail(ctx, "space-commit-differs", "space commit differs from time commit".into());
+        }
+        ctx.rep.case(&format!("keys max_degree={} mep={} polys={}", max_degree, mep, polys.len()), Some(format!("keys/{}/{}", max_degree, mep)));
+    }
+}
+
 pub fn run(ctx: &mut Ctx) {
+    key_conversions(ctx);
     let max_deg = if ctx.thorough { 256 } else { 64 };
     let n_single = ctx.n(60, 500);
     for i in 0..n_single {
